@@ -12,7 +12,7 @@
    planner is refuted (C16_*_legacy_refuted), on the planner and on the protocol. *)
 From Coq Require Import List NArith Bool Permutation.
 From GS Require Import LTS Cluster ClusterLTS ClusterPlan ClusterFix ClusterFixPlan ClusterRun ClusterInv
-     ClusterStep ClusterMain ClusterRound ClusterRoundB ClusterRoundC ClusterHist ClusterFsm.
+     ClusterStep ClusterMain ClusterRound ClusterRoundB ClusterRoundC ClusterHist ClusterFsm ClusterGo ClusterLive.
 Import ListNotations.
 Open Scope N_scope.
 
@@ -151,6 +151,59 @@ Theorem C16_update_never_ignored : forall d ls s,
                    s_base s' = s_entries s /\ s_des s' = new_entries m /\ s_offer s' = None.
 Proof. exact (update_never_ignored true). Qed.
 
+(* ---- "the servers it RUNS" (ClusterGo.v: child-server liveness on top of the protocol model) ----
+   [s_live] only says "created, Stop() not called".  ClusterGo.gstep adds what makes a server run: its
+   Run was called ([s_unrun]), its goroutine is inside Run ([g_run]) and the context the cluster gave it
+   is live ([cxb] false: the cluster cancels a server's context only after its Stop() returned, in the
+   cleanup of a failed start, and - all of them at once - through the context given to Run or the
+   Stop() path's runCancel()).  A server's Run returns only after its Stop() was called or its context
+   was cancelled, or BY ITSELF once it has been ready ([g_self], environment action GSelfExit). *)
+
+(* Whenever the loop is idle and the context given to Run is not cancelled, runCancel() has not fired
+   and every server started and not stopped has a live context, has had its Run called, and is inside
+   Run unless it gave up by itself. *)
+Theorem C16_live_servers_run : forall d g,
+  reachable (gstep true) (ginit d) g -> s_pc (g_s g) = PIdle -> s_cancel (g_s g) = false ->
+  g_rc g = false /\
+  forall j k c, In (j, (k, c)) (s_live (g_s g)) ->
+    cxb g j = false /\ ~ In j (s_unrun (g_s g)) /\ (In j (g_run g) \/ In j (g_self g)).
+Proof. exact live_servers_run. Qed.
+
+(* The first sentence of the property, about servers that actually run: at every idle point (context
+   not cancelled) each id the last received map gives a configuration c either failed to start in that
+   round or has a RUNNING instance created from exactly c; and every instance started and not stopped
+   is such an instance.  [aliveb] = context live, Run called, inside Run or gave up by itself. *)
+Theorem C16_runs_exactly : forall d g,
+  reachable (gstep true) (ginit d) g -> s_pc (g_s g) = PIdle -> s_cancel (g_s g) = false ->
+  (forall q c, dcfg (s_des (g_s g)) q = Some c ->
+     In q (s_failed (g_s g)) \/ exists j, In (j, (q, c)) (s_live (g_s g)) /\ aliveb g j = true) /\
+  (forall j k c, In (j, (k, c)) (s_live (g_s g)) -> dcfg (s_des (g_s g)) k = Some c /\ aliveb g j = true).
+Proof. exact runs_exactly. Qed.
+
+(* The liveness schedules are schedules of the protocol model: every theorem above applies to them. *)
+Theorem C16_liveness_schedules_project : forall fx ls g g',
+  run (gstep fx) g ls = Some g' -> run (step fx) (g_s g) (erase ls) = Some (g_s g').
+Proof. exact grun_erase. Qed.
+
+(* What the code does with a server that gives up by itself (OUTSIDE the property: its fault clause
+   names factory errors, readiness timeouts and slow stops): nothing.  createAndStartServer's goroutine
+   logs "Server instance failed"; the entry keeps its runner, GetServerCount() keeps counting it, and a
+   map that gives the id the same configuration does not restart it - only a changed configuration, a
+   removal or the shutdown touch the entry again (Stop() on the dead server, then a fresh one).
+   Witness: two servers, the second gives up; the count stays 2 before and after the same map again. *)
+Definition self_exit_schedule : list glabel :=
+  [GB (LOffer [(id_a, Some 0); (id_a_stop, Some 0)]); GB (LRecv []); GSent;
+   GB (LFactory id_a 0 0 BReady); GB (LRunCall 0); GB LReady;
+   GB (LFactory id_a_stop 0 1 BReady); GB (LRunCall 1); GB LReady; GB (LCount 2);
+   GSelfExit 1; GB (LCount 2);
+   GB (LOffer [(id_a, Some 0); (id_a_stop, Some 0)]); GB (LRecv [id_a; id_a_stop]); GSent; GB (LCount 2)].
+Theorem C16_self_exited_child_is_kept :
+  exists g, run (gstep true) (ginit false) self_exit_schedule = Some g /\
+            s_pc (g_s g) = PIdle /\ s_cancel (g_s g) = false /\
+            g_self g = [1] /\ g_run g = [0] /\ map fst (s_live (g_s g)) = [1; 0] /\
+            count (s_entries (g_s g)) = 2%nat /\ s_next (g_s g) = 2.
+Proof. eexists. split; [vm_compute; reflexivity|]. repeat split. Qed.
+
 (* ---- the legacy planner (fx = false, before dec72e6): refuted (F9) ---- *)
 
 (* ids a and a:stop both running, a's configuration changes: in one iteration order the old instance
@@ -199,6 +252,10 @@ Print Assumptions C16_old_stopped_before_replacement.
 Print Assumptions C16_idle_is_running.
 Print Assumptions C16_update_never_ignored.
 Print Assumptions C16_count_bounds.
+Print Assumptions C16_live_servers_run.
+Print Assumptions C16_runs_exactly.
+Print Assumptions C16_liveness_schedules_project.
+Print Assumptions C16_self_exited_child_is_kept.
 Print Assumptions C16_converge_legacy_refuted.
 Print Assumptions C16_none_leaked_legacy_refuted.
 Print Assumptions C16_count_legacy_refuted.
@@ -312,3 +369,20 @@ Example C16_ex_history_hyps :
             In (LFactory id_a 0 0 BReady) (firstn 12 ex_idle_schedule) /\
             In (LStopRet 0) (firstn 12 ex_idle_schedule).
 Proof. eexists. split; [vm_compute; reflexivity|]. split; vm_compute; auto 12. Qed.
+
+(* C16_live_servers_run / C16_runs_exactly: an idle point, context not cancelled, reached by a liveness
+   schedule with a restart and a failed start; instance 2 runs id a with configuration 1, [99] failed *)
+Definition ex_live_schedule : list glabel :=
+  [GB (LOffer [(id_a, Some 0); (id_a_stop, Some 0)]); GB (LRecv []); GSent;
+   GB (LFactory id_a 0 0 BReady); GB (LRunCall 0); GB LReady;
+   GB (LFactory id_a_stop 0 1 BReady); GB (LRunCall 1); GB LReady;
+   GB (LOffer [(id_a, Some 1); (id_a_stop, Some 0); ([99], Some 2)]); GB (LRecv [id_a; id_a_stop]); GSent;
+   GB (LStopCall 0); GB (LStopRet 0); GRunRet 0; GB (LFactoryErr [99] 2);
+   GB (LFactory id_a 1 2 BReady); GB (LRunCall 2); GB LReady].
+Example C16_ex_live_hyps :
+  exists g, run (gstep true) (ginit false) ex_live_schedule = Some g /\
+            s_pc (g_s g) = PIdle /\ s_cancel (g_s g) = false /\
+            In (2, (id_a, 1)) (s_live (g_s g)) /\ aliveb g 2 = true /\ aliveb g 0 = false /\
+            dcfg (s_des (g_s g)) id_a = Some 1 /\ dcfg (s_des (g_s g)) [99] = Some 2 /\
+            In [99] (s_failed (g_s g)).
+Proof. eexists. split; [vm_compute; reflexivity|]. repeat split; vm_compute; auto. Qed.
